@@ -144,7 +144,11 @@ func H_C02_routing() {
 		np := 1 + vChoose("npats", maxPats)
 		list := ""
 		for i := 0; i < np; i++ {
-			p := vPattern("pat", maxLen, l == 0 || vTier() > 0)
+			ml := maxLen
+			if l == 1 && ml > 2 {
+				ml = 2 // the second logger's P has at most 2 segments
+			}
+			p := vPattern("pat", ml, l == 0 || vTier() > 0)
 			pats[l] = append(pats[l], p)
 			all = append(all, p)
 			if i > 0 {
@@ -155,8 +159,8 @@ func H_C02_routing() {
 		if l == 0 {
 			// the first logger lists a second, constant literal; blanks around list entries are insignificant
 			sep := [2]string{"", " , _zz_top "}[vChoose("second", 2)]
-			if vTier() > 0 {
-				sep = [4]string{"", ",_zz_top", ", _zz_top", " , _zz_top "}[vChoose("secondForm", 4)]
+			if vTier() > 0 && sep != "" {
+				sep = [2]string{", _zz_top", " , _zz_top "}[vChoose("secondForm", 2)]
 			}
 			if sep != "" {
 				list += sep
